@@ -20,32 +20,55 @@ PROPS = {
     'C01': dict(
         level='model_checking', design_ref='5/C01', oracle='C01',
         technique='explicit-state exploration of the real back-ends (BFS over events, DFS over guard valuations) + reference-model conformance',
-        quick=[S('flat'), S('hier2')],
-        thorough=[S('flat'), S('hier2')],
+        quick=[S('flat'), S('hier2'), S('ortho'), S('hier3')],
+        thorough=[S('flat'), S('hier2'), S('ortho'), S('hier3'), S('entry'), S('histS')],
         rule='every reachable active configuration x every event type x every valuation of the guards consulted; '
              'an execution is non-trivial when at least one guard or action ran',
     ),
     'C02': dict(
         level='model_checking', design_ref='5/C02', oracle='C02',
         technique='explicit-state exploration of the real back-ends + reference-model conformance on the exit/action/entry order',
-        quick=[S('flat'), S('hier2')],
-        thorough=[S('flat'), S('hier2')],
+        quick=[S('flat'), S('hier2'), S('hier3'), S('entry')],
+        thorough=[S('flat'), S('hier2'), S('hier3'), S('entry'), S('histN'), S('histA'), S('histS'), S('ortho')],
         rule='every edge of the state graph from every reachable configuration under every guard valuation; '
              'non-trivial when an exit, action or entry ran',
     ),
     'C06': dict(
         level='model_checking', design_ref='5/C06', oracle='C06',
         technique='explicit-state exploration of the real back-ends + reference-model conformance on per-region order, result code and no_transition',
-        quick=[S('flat'), S('hier2')],
-        thorough=[S('flat'), S('hier2')],
+        quick=[S('flat'), S('ortho'), S('hier2'), S('hier3')],
+        thorough=[S('flat'), S('ortho'), S('hier2'), S('hier3'), S('entry')],
         rule='every reachable configuration x event x guard valuation, calls from quiescent non-blocked machines; '
              'non-trivial when a guard, action or no_transition ran',
     ),
     'C07': dict(
         level='model_checking', design_ref='5/C07', oracle='C07',
         technique='explicit-state exploration of the real back-ends + reference-model conformance on bubbling and cascades',
-        quick=[S('hier2')],
-        thorough=[S('hier2')],
+        quick=[S('hier2'), S('hier3'), S('entry')],
+        thorough=[S('hier2'), S('hier3'), S('entry'), S('histA')],
         rule='every reachable configuration of the nested machines x event x guard valuation; non-trivial when any callback ran',
+    ),
+    'C03': dict(
+        level='model_checking', design_ref='5/C03', oracle='C03',
+        technique='explicit-state exploration of start/stop/process_event/enqueue histories; entry/exit ledger vs every introspection API at every quiescent state',
+        quick=[S(z, ops=pe_all(z) + ['eq:1', 'xq'], introspect=True) for z in ('ortho', 'hier2', 'hier3', 'entry', 'histS')],
+        thorough=[S(z, ops=pe_all(z) + ['eq:1', 'eq:2', 'xq', 'xs'], introspect=True) for z in ('ortho', 'hier2', 'hier3', 'entry', 'histN', 'histA', 'histS', 'flat')],
+        rule='all histories over start/stop/process_event/enqueue_event/execute_queued_events to closure (pending queue <= 2); '
+             'every distinct canonical state is a quiescent point checked against the ledger; non-trivial executions ran a callback',
+    ),
+    'C08': dict(
+        level='model_checking', design_ref='5/C08', oracle='C08',
+        technique='explicit-state exploration of enter/move/leave histories under the three history policies + reference-model conformance',
+        quick=[S('histN'), S('histA'), S('histS')],
+        thorough=[S('histN'), S('histA'), S('histS')],
+        rule='all histories over plain entry, history-event entry, explicit entry, fork, per-region moves and leave, to closure; '
+             'non-trivial when an entry behaviour ran',
+    ),
+    'C09': dict(
+        level='model_checking', design_ref='5/C09', oracle='C09',
+        technique='explicit-state exploration of direct/fork/entry-point/exit-point rows incl. the exit event sent from outside + reference-model conformance',
+        quick=[S('entry')],
+        thorough=[S('entry'), S('histS')],
+        rule='every reachable configuration of the submachine x every event (incl. the exit point event from outside) x guard valuations',
     ),
 }
